@@ -138,6 +138,10 @@ func (q *MultiOpQueryer) queryBatch(inputs []*requests.Request) ([]map[string]in
 		if len(resp.Errors) != 0 {
 			return nil, resp.Errors
 		}
+		// an answer without errors has to carry data, whichever way the request was sent
+		if resp.Data == nil {
+			return nil, errors.New("response contains neither data nor errors")
+		}
 
 		results[i] = resp.Data
 	}
